@@ -43,6 +43,7 @@ class State:
         self.decisions = {}  # cond node id -> bool
         self.complete = True
         self.dropped = set()   # symbols mentioned by facts that could not be interpreted
+        self.neq = []          # linear expressions known to be non-zero (kept for witness search only)
         self.havoc = set()
         self.nonneg = set()
         self.visits = {}
@@ -59,6 +60,7 @@ class State:
         s.decisions = dict(self.decisions)
         s.complete = self.complete
         s.dropped = set(self.dropped)
+        s.neq = list(self.neq)
         s.havoc = set(self.havoc)
         s.nonneg = set(self.nonneg)
         s.visits = dict(self.visits)
@@ -367,7 +369,7 @@ class Analysis:
                             changed = True
                 m = None
                 if st.complete or not (allsyms & st.dropped):
-                    m = find_model(rel, allsyms)
+                    m = find_model(rel, allsyms, neq=[q_ for q_ in st.neq if q_.syms() & allsyms])
                 if m is not None:
                     wit = {k.replace("@0", ""): int(v) for k, v in m.items()}
             site.results.append((False, st.complete, hv, "%s  [offset=%r extent=%r capacity=%r]" % (gtxt, offset, extent, cap),
@@ -557,7 +559,7 @@ class Analysis:
                     pool.remove(c)
                     changed = True
         if not (syms & st.dropped) and not (syms & st.havoc):
-            m = find_model(rel, syms)
+            m = find_model(rel, syms, neq=[q_ for q_ in st.neq if q_.syms() & syms])
             if m is not None:
                 wit = {k.replace("@0", "").split("#")[0]: int(v) for k, v in m.items()}
         site.results.append((False, st.complete, hv, text, [repr(c) + " <= 0" for c in st.cons][:14], wit))
@@ -765,6 +767,7 @@ class Analysis:
                 st.cons.append(le(sp[1] + l1, cap))                   # (A) first part ends inside the heap
                 st.cons.append(le(l2, cap - Lin.const(1)))            # (C') the wrapped part is NUL-terminated inside the heap
                 st.cons.append(le(Lin.const(1), l1))                  # a stored text is not empty
+                st.cons.append(le(l1 + l2 + Lin.const(1), cap))       # (D) a stored text with its terminator fits the heap
                 st.ptr[p2] = ("heap->data", Lin.const(0))
                 st.nullcase = dict(getattr(st, "nullcase", {}))
                 eqs = [le(sp[1] + l1, cap), le(cap, sp[1] + l1)]      # (B1) wrapped: first part ends exactly at the end
@@ -941,7 +944,7 @@ class Analysis:
                 elif entails(st.cons, le(l, r)):
                     st.cons.append(lt(l, r))
                 else:
-                    self.drop(st, atom)
+                    st.neq.append(l - r)          # a disequality: no linear fact, but every witness must respect it
             return
         if a.get("tk") in INT_TK and a.k in ("DeclRefExpr", "MemberExpr", "CallExpr", "ImplicitCastExpr"):
             v = self.value(st, a)
@@ -950,7 +953,7 @@ class Analysis:
                     if entails(st.cons, v.scale(-1)):
                         st.cons.append(lt(Lin.const(0), v))
                     else:
-                        self.drop(st, atom)
+                        st.neq.append(v)
                 else:
                     st.cons += [v, v.scale(-1)]
             return
@@ -1161,6 +1164,20 @@ class Analysis:
                         inst = c0.subst({x: st.env[x], y: st.env[y]})
                         if entails(st.cons, inst):
                             tagged.append((tg, c0))
+        # a counter that is compared with a bound the loop does not change: counter <= bound is the usual invariant
+        mods_all = set(mods) | set(pmods)
+        for bid in self.loops[head.id]:
+            cnd = self.fn.blocks[bid].cond
+            if cnd is None or cnd.k != "BinaryOperator" or cnd.get("op") not in ("<", "<=", "!="):
+                continue
+            l_, r_ = cnd.child(0).strip_all_casts(), cnd.child(1).strip_all_casts()
+            lp, rp = l_.get("path"), r_.get("path")
+            if lp in vars_ and rp and rp not in mods_all and r_.get("tk") in INT_TK:
+                rv = self.var(st, r_) if hasattr(self, "var") else None
+                if rv is not None:
+                    c0 = le(Lin.sym(lp), rv)
+                    if entails(st.cons, c0.subst({lp: st.env[lp]})):
+                        tagged.append((("gle", lp, rp), c0))
         for v in vars_:
             for k0 in (0, 1):
                 c0 = le(Lin.const(k0), Lin.sym(v))
